@@ -262,7 +262,7 @@ theorem ops_invariant {m : Val → Val → Bool} (hm : KeyPER m) (ops : List (Ma
 
 /-- on a key set where equal keys hash equally, the hashed probe gives the same verdicts as `keyEq` -/
 theorem keyEqH_eq_keyEq_on (F : FloatOps) (k : Val) (es : List (Val × β))
-    (hc : ∀ e ∈ es, keyEq F k e.1 = true → hashEq k e.1 = true) :
+    (hc : ∀ e ∈ es, keyEq F k e.1 = true → hashEq F k e.1 = true) :
     ∀ e ∈ es, keyEqH F k e.1 = keyEq F k e.1 := by
   intro e he
   unfold keyEqH
@@ -271,7 +271,7 @@ theorem keyEqH_eq_keyEq_on (F : FloatOps) (k : Val) (es : List (Val × β))
   · simp [hc e he h]
 
 theorem getMatch_lookup_eq_spec (F : FloatOps) (k : Val) (es : List (Val × β))
-    (hc : ∀ e ∈ es, keyEq F k e.1 = true → hashEq k e.1 = true) :
+    (hc : ∀ e ∈ es, keyEq F k e.1 = true → hashEq F k e.1 = true) :
     lookupBy (getMatch F es.length) k es = lookupBy (keyEq F) k es := by
   unfold getMatch
   split
